@@ -181,6 +181,15 @@ def spell(owner_inherit, ttl_inherit, class_mode, abs_names, multiline, use_ttl_
     # a record inheriting its owner from the line before (the last generated / written name: c3)
     lines.append(rec("" if owner_inherit else "c3", ttl, cls, "TXT \"after\""))
     canon += "c3 60 IN TXT \"after\"\n"
+    # names below a mid-file $ORIGIN (a proper subdomain of the zone origin), written or generated, with a name in the RDATA
+    canon += "g1.sub 60 IN CNAME h1.sub\ng2.sub 60 IN CNAME h2.sub\nm.sub 60 IN MX 10 x.sub\n"
+    lines.append("$ORIGIN sub.example.")
+    if gen:
+        lines.append("$GENERATE 1-2 g$ %s%sCNAME h$" % (ttl if ttl else ("" if use_ttl_directive or ttl_inherit else "60 "), cls))
+    else:
+        lines.append(rec("g1", ttl, cls, "CNAME h1"))
+        lines.append(rec("g2", ttl, cls, "CNAME h2"))
+    lines.append(rec("m.sub.example." if abs_names else "m", ttl, cls, "MX 10 %s" % ("x.sub.example." if abs_names else "x")))
     return canon, BASE + "\n".join(lines) + "\n"
 
 
